@@ -30,7 +30,7 @@ from vf.core import CaseResult, Ctx, Violation, exc_sig, hyp_run
 
 PROP_ID = 'C21'
 LEVEL = 'fault_enumeration'
-BUDGET = {'quick': 1600, 'thorough': 32000}
+BUDGET = {'quick': 960, 'thorough': 24000}
 EXHAUSTIVE = {'quick': False, 'thorough': False}
 MANIFEST = {
     'engine': 'F',
@@ -69,7 +69,8 @@ ASSUMPTIONS = [
     'Content comparison is the multiset of rows of every table read through a '
     'fresh connection of the stdlib sqlite3 module.',
     'Process death is os._exit (no power loss): SQLite journal/fsync ordering '
-    'is trusted.',
+    'is trusted; the harness opens cylc\'s connections with PRAGMA '
+    'synchronous=OFF (no fsync) for speed.',
     'CylcWorkflowDAO.MAX_TRIES is lowered to 2-4 and CONN_TIMEOUT to 5 ms by '
     'the harness (constants, not logic) so that the recovery threshold is '
     'reachable.',
@@ -111,12 +112,15 @@ def cases(draw):
         'batch': draw(st.lists(_op(), min_size=1, max_size=24)),
         'partial': draw(st.integers(0, 1)),
     }
+    if mode == 'crash':
+        # one forked writer per position: keep the batches shorter
+        case['batch'] = case['batch'][:10]
     if mode == 'pub':
-        case['max_tries'] = draw(st.integers(2, 4))
-        n = draw(st.integers(1, 8))
+        case['max_tries'] = draw(st.sampled_from([2, 2, 3, 4]))
+        n = draw(st.integers(2, 10))
         steps = []
         for i in range(n):
-            lock = draw(st.sampled_from([0, 1, 1, 1, 2]))
+            lock = draw(st.sampled_from([0, 1, 1, 1, 1, 2]))
             # new operations arriving while the public DB may be failing:
             # mostly none
             new = draw(st.integers(0, 9))
@@ -313,6 +317,9 @@ class _Shim:
         if plan is not None and plan.fail_at == 'connect':
             plan.fire('connect')
         conn = real_sqlite3.connect(path, *a, **kw)
+        # no fsync: process death (not power loss) is the fault model, and
+        # fsync on the shared disk dominates the run time otherwise
+        conn.execute('PRAGMA synchronous=OFF')
         if plan is not None:
             return _Conn(conn, plan)
         return conn
@@ -438,7 +445,8 @@ def _check(case, ctx, env, all_tables):
     mgr.process_queued_ops()
     env.done(mgr)
     pre_pri = os.path.join(env.base, 'pre', 'pri', 'db')
-    pre = dump(pre_pri, tables)
+    pre_full = dump(pre_pri, all_tables)
+    pre = {t: pre_full[t] for t, _ in tables}
     if any(pre.values()):
         classes.add('pre-state-nonempty')
 
@@ -450,7 +458,8 @@ def _check(case, ctx, env, all_tables):
     mgr.process_queued_ops()
     env.shim.plans = {}
     nstmt = plan.counter
-    post = dump(ref_pri, tables)
+    post_full = dump(ref_pri, all_tables)
+    post = {t: post_full[t] for t, _ in tables}
     ref_pub = dump(os.path.join(env.base, 'ref', 'pub', 'db'), tables)
     d = diff(post, ref_pub)
     if d:
@@ -472,11 +481,13 @@ def _check(case, ctx, env, all_tables):
     nontrivial = multi
 
     if mode == 'pri':
-        _mode_pri(case, env, tables, nstmt, pre, post, viol, classes)
+        _mode_pri(case, env, tables, nstmt, pre, post, viol, classes,
+                  all_tables, pre_full, post_full)
     elif mode == 'crash':
-        _mode_crash(case, env, tables, nstmt, pre, post, viol, classes)
+        _mode_crash(case, env, tables, nstmt, pre, post, viol, classes,
+                    all_tables, pre_full, post_full)
     else:
-        failed = _mode_pub(case, env, tables, mgr, viol, classes)
+        failed = _mode_pub(case, env, tables, mgr, viol, classes, all_tables)
         nontrivial = multi and failed
     if mode != 'pub':
         env.done(mgr)
@@ -492,9 +503,15 @@ def _positions(nstmt):
     return ['connect'] + list(range(nstmt)) + ['commit']
 
 
-def _mode_pri(case, env, tables, nstmt, pre, post, viol, classes):
-    from cylc.flow.workflow_db_mgr import WorkflowDatabaseManager  # noqa
-    for pos in _positions(nstmt):
+def _mode_pri(case, env, some_tables, nstmt, some_pre, some_post, viol,
+              classes, all_tables, pre_full, post_full):
+    positions = _positions(nstmt)
+    for pos in positions:
+        if pos == positions[-1]:
+            # one comparison per case over every table
+            tables, pre, post = all_tables, pre_full, post_full
+        else:
+            tables, pre, post = some_tables, some_pre, some_post
         env.clone('pre', 'run')
         mgr, plan = env.manager('run', restart=True, plan=True)
         pri = os.path.join(env.base, 'run', 'pri', 'db')
@@ -553,9 +570,14 @@ def _mode_pri(case, env, tables, nstmt, pre, post, viol, classes):
     classes.add('fault-positions:%d' % min(len(_positions(nstmt)), 20))
 
 
-def _mode_crash(case, env, tables, nstmt, pre, post, viol, classes):
+def _mode_crash(case, env, some_tables, nstmt, some_pre, some_post, viol,
+                classes, all_tables, pre_full, post_full):
     positions = list(range(nstmt)) + ['commit', 'after-commit']
     for pos in positions:
+        if pos in ('commit', 'after-commit'):
+            tables, pre, post = all_tables, pre_full, post_full
+        else:
+            tables, pre, post = some_tables, some_pre, some_post
         env.clone('pre', 'run')
         pri = os.path.join(env.base, 'run', 'pri', 'db')
         # everything is prepared in the parent; no SQLite connection is
@@ -607,7 +629,7 @@ def _mode_crash(case, env, tables, nstmt, pre, post, viol, classes):
     classes.add('crash-positions:%d' % min(len(positions), 20))
 
 
-def _mode_pub(case, env, tables, refmgr, viol, classes):
+def _mode_pub(case, env, tables, refmgr, viol, classes, all_tables):
     """Lock patterns on the public DB.  `refmgr` is the clean reference
     (never locked) which receives the same operations."""
     env.clone('pre', 'run')
@@ -723,7 +745,7 @@ def _mode_pub(case, env, tables, refmgr, viol, classes):
             viol.append(Violation(
                 'C21:public-queue-never-drains',
                 'public DB unlocked for 3 calls but its queue is not empty'))
-        d = diff(dump(pri, tables), dump(pub, tables))
+        d = diff(dump(pri, all_tables), dump(pub, all_tables))
         if d:
             if recovered_with_pending:
                 viol.append(Violation(
